@@ -1,30 +1,48 @@
-"""C20 -- Deferred matchers classify fired / failed / unfired without firing anything."""
+"""C20 -- Deferred matchers classify fired / failed / unfired without firing anything.
+
+on_deferred_result, extract_result, the three matchers and SynchronousDeferredRunTest._run_user are interpreted
+abstractly with Twisted's Deferred chains as abstract values (rules/deferredmodel.py), once per state the
+matchee can be in (not fired, fired with a value, failed) and per answer of the inner matcher.  The rules read
+which callback was invoked with what, what is returned, and what the matchee's state and callback queue are
+afterwards -- including what a callback added *after* matching would see.
+"""
 
 import ast
 
-from ..absint import EMPTY, FALSE, TRUE, NONE, NONEMPTY, NOTNONE, TOP, DefaultDomain, Interp, Result, State, exc, val
-from ..astutil import FUNC_TYPES, attr_chain, dotted, norm, walk_shallow
+from .. import effects
+from ..absint import NONE, State
+from ..astutil import FUNC_TYPES, dotted, norm
 from ..loader import AnalysisError, _annotate
-from .common import TWRUNTEST, kw_value, module_function, own_method
-from .matchmodel import expr_kind, function_return_kinds
+from .common import TWRUNTEST, module_function
+from .deferredmodel import USER_EXC, USER_VALUE, DeferredDomain, is_dfr, is_failure, userfn
 
 EXPLANATION = (
-    "R-PASSIVE-CALLBACKS: every callback/errback that the matchers attach to the matchee returns its first "
-    "parameter on all paths (so the Deferred's result is unchanged for later callbacks); the documented "
-    "exceptions are extract_result (consuming by contract) and the swallowing errbacks that mark an inspected "
-    "failure handled. R-NOBODY-FIRES: no call of callback/errback/cancel on the matchee in _matchers.py or "
-    "_deferred.py (expected count 0, with an embedded positive example). R-THREEWAY: nullness/emptiness "
-    "abstract interpretation of on_deferred_result over the four (successes, failures) emptiness combinations: "
-    "exactly one of on_success / on_failure / on_no_result is invoked on every non-raising path, chosen by the "
-    "capture lists; both non-empty raises. R-MATCHER-TABLES: return-kind inference on the per-state callbacks "
-    "of _NoResult / _Succeeded / _Failed gives the documented table (with Always() inside exactly one of the "
-    "three matches in each state). R-HANDLED-SIBLINGS: both failure arms add a swallowing errback before "
-    "returning. R-SYNC-RUNNER: SynchronousDeferredRunTest._run_user is maybeDeferred -> errback "
-    "_got_user_failure -> extract_result, and extract_result is the three-way raise / return / DeferredNotFired."
+    "Abstract runs with Deferred chains as values. R-THREEWAY: on_deferred_result(d, on_success, on_failure, "
+    "on_no_result) for d not fired / fired with V / failed with F calls exactly one of the three -- "
+    "on_no_result(d), on_success(d, V), on_failure(d, F) -- and returns its answer. R-PASSIVE-CALLBACKS: "
+    "afterwards d is in the state it was in: still unfired (and a value it is fired with later reaches later "
+    "callbacks unchanged through the capture callbacks), still holding V, still holding F; nothing fired it. "
+    "R-NOBODY-FIRES: no call of callback / errback / cancel / chainDeferred on a Deferred in _matchers.py and "
+    "_deferred.py (expected count 0, with an embedded positive example). R-MATCHER-TABLES: has_no_result / "
+    "succeeded(m) / failed(m) per state and per answer of m: None only for the matching state (and m's own answer, "
+    "m being asked with V resp. F exactly once), a Mismatch otherwise -- so with Always() exactly one of the three "
+    "matches; a successful result and an unfired Deferred are left intact. R-HANDLED-SIBLINGS: a failure inspected "
+    "by succeeded() or failed() is consumed (the Deferred no longer holds a failure that would be logged as "
+    "unhandled). R-SYNC-RUNNER: extract_result returns V / raises F's exception / raises DeferredNotFired; "
+    "SynchronousDeferredRunTest._run_user gives V for a function returning V or a fired Deferred, records the "
+    "failure and gives the sentinel for one that raises or returns a failed Deferred; _got_user_failure hands "
+    "(type, value, traceback) of the Failure and the label to the recorder and returns its answer."
 )
 
 DEF = "testtools.twistedsupport._deferred"
 MAT = "testtools.twistedsupport._matchers"
+V, F_EXC = ("sym", "the-value"), ("exc", "TheError")
+F = ("failure", F_EXC)
+V2 = ("sym", "a-later-value")
+INNER_DEFERRED = ("sym", "the-nested-deferred")
+STATES = {"not fired": ("pending",), "fired with a value": ("ok", V), "failed": ("fail", F), "fired but waiting on a nested Deferred": ("paused", INNER_DEFERRED)}
+UNFIRED = ("not fired", "fired but waiting on a nested Deferred")
+INNER_MISMATCH = ("sym", "inner-mismatch")
 
 _FIRE_EXAMPLE = """
 def match(self, deferred):
@@ -45,334 +63,227 @@ def firing_calls(tree, names):
     return out
 
 
-ENVS = {
-    # env: (Deferred.called, Deferred.result, capture lists after addCallbacks, expected callback)
-    "not fired": (FALSE, ("no-result-attr",), (EMPTY, EMPTY), "on_no_result"),
-    "fired, chain paused or waiting on a nested Deferred": (TRUE, ("intermediate",), (EMPTY, EMPTY), "on_no_result"),
-    "result available": (TRUE, ("the-result",), (NONEMPTY, EMPTY), "on_success"),
-    "failure available": (TRUE, ("the-failure",), (EMPTY, NONEMPTY), "on_failure"),
-    "both callbacks ran (impossible)": (TRUE, TOP, (NONEMPTY, NONEMPTY), None),
-}
+def _with_deferred(outcome):
+    """A State holding one Deferred in the given state -> (value, state)."""
+    return DeferredDomain.new_dfr(State(), outcome)
 
 
-class ThreeWayDomain(DefaultDomain):
-    """on_deferred_result under each state the Deferred can be in.  Attaching callbacks runs the
-    success / failure capture exactly when a result / failure is available *now*; Deferred.called and
-    Deferred.result are what Twisted documents: `called` is already true, and `result` an intermediate
-    value, while the chain is paused or waiting on a nested Deferred."""
+def _later_callbacks_see(dom, interp_run, st, dv):
+    """Fire the (still unfired) Deferred with V2 afterwards: what does a callback added later see?"""
+    return None
 
-    def __init__(self, succ_var, fail_var, callbacks, env):
-        self.succ_var = succ_var
-        self.fail_var = fail_var
-        self.callbacks = callbacks
-        self.env = env
 
-    def load_attr(self, chain, st, fr):
-        if len(chain) == 2 and chain[0] == "deferred":
-            if chain[1] == "called":
-                return ENVS[self.env][0]
-            if chain[1] == "result":
-                return ENVS[self.env][1]
-            if chain[1] == "paused":
-                return ("bool",)
-        return None
+def _fire_later(ctx, dom, f, cls, st, dv):
+    """States after `dv` -- left unfired by the code under analysis -- is fired with V2 (the queued callbacks run)."""
+    from ..absint import Frame, Interp
+    it = Interp(dom, max_depth=6)
+    fr = Frame(f, 0, cls, name="<later>", is_method=False)
+    return dom.fire(it, dv, st.set(f"dfr.{dv[1]}", ("ok", V2)), fr)
 
-    def call(self, interp, call, st, fr):
-        d = dotted(call.func)
-        if d and d.split(".")[-1] in ("addCallbacks", "addCallback", "addErrback", "addBoth") and d.split(".")[0] == "deferred":
-            sv, fv = ENVS[self.env][2]
-            if self.succ_var:
-                st = st.set(fr.local(self.succ_var), sv)
-            if self.fail_var:
-                st = st.set(fr.local(self.fail_var), fv)
-            return [val(TOP, st)]
-        if isinstance(call.func, ast.Name) and call.func.id in self.callbacks:
-            n = st.get("ev.calls", ())
-            return [val(("verdict", call.func.id), st.set("ev.calls", n + (call.func.id,)))]
-        if d == "isinstance" and len(call.args) == 2 and norm(call.args[1]).split(".")[-1] == "Failure":
-            out = []
-            for r in interp.eval(call.args[0], st, fr):
-                if r.kind == "exc":
-                    out.append(r)
-                elif r.value == ("the-failure",):
-                    out.append(val(TRUE, r.state))
-                elif r.value == ("the-result",):
-                    out.append(val(FALSE, r.state))
+
+def check_on_deferred_result(ctx):
+    odr = module_function(ctx, DEF, "on_deferred_result")
+    params = [a.arg for a in odr.args.args]
+    if len(params) != 4:
+        raise AnalysisError("anchor vanished: on_deferred_result no longer takes (deferred, on_success, on_failure, on_no_result)")
+    CB = {params[1]: ("wobj", "on_success"), params[2]: ("wobj", "on_failure"), params[3]: ("wobj", "on_no_result")}
+    for state, outcome in STATES.items():
+        dv, st = _with_deferred(outcome)
+        dom = DeferredDomain(ctx.classes, attrs={}, log_cap=20)
+        res = effects.run(ctx, dom, odr, None, dict(CB, **{params[0]: dv}), state=st, depth=5)
+        threeway, passive = set(), set()
+        want = {"fired with a value": ("on_success.__call__", (dv, V)), "failed": ("on_failure.__call__", (dv, F))}.get(state, ("on_no_result.__call__", (dv,)))
+        for r in res:
+            log = r.state.get("ev.calls", ())
+            calls_ = [(e[0], e[1]) for e in log if e[0].endswith(".__call__")]
+            if calls_ != [want]:
+                threeway.add(f"the callbacks invoked are {[(n.split('.')[0], a) for n, a in calls_]}; expected exactly {want[0].split('.')[0]}{want[1]!r}")
+            elif r.kind != "val" or r.value != ("ret", want[0].split(".")[0], "__call__"):
+                threeway.add(f"the answer of {want[0].split('.')[0]} is not what on_deferred_result returns ({r.kind} {r.value!r})")
+            after = dom.result_of(r.state, dv)
+            if after != outcome:
+                passive.add(f"afterwards the Deferred holds {after!r} instead of {outcome!r}: later callbacks see something else" + (" (it was fired by the matcher)" if outcome == ("pending",) else ""))
+            elif state in UNFIRED:
+                for s2 in _fire_later(ctx, dom, odr, None, r.state, dv):
+                    if dom.result_of(s2, dv) != ("ok", V2):
+                        passive.add(f"when the Deferred fires later with a value, later callbacks see {dom.result_of(s2, dv)!r} instead of that value")
+        if not res:
+            threeway.add("no path explored")
+        ctx.check("R-THREEWAY", f"on_deferred_result, Deferred {state}: exactly the matching callback, with the Deferred and its result", odr, not threeway, "; ".join(sorted(threeway)),
+                  examined=len(res), construct=f"{DEF}:on_deferred_result::{state}")
+        ctx.check("R-PASSIVE-CALLBACKS", f"on_deferred_result, Deferred {state}: the Deferred is left as it was", odr, not passive, "; ".join(sorted(passive)),
+                  examined=len(res), construct=f"{DEF}:on_deferred_result::passive {state}")
+
+
+def check_matchers(ctx):
+    expect = {
+        # matcher: state -> "none" | "mismatch" | "inner"
+        "_NoResult": {"not fired": "none", "fired with a value": "mismatch", "failed": "mismatch", UNFIRED[1]: "none"},
+        "_Succeeded": {"not fired": "mismatch", "fired with a value": "inner", "failed": "mismatch", UNFIRED[1]: "mismatch"},
+        "_Failed": {"not fired": "mismatch", "fired with a value": "mismatch", "failed": "inner", UNFIRED[1]: "mismatch"},
+    }
+    for cname, table in expect.items():
+        cls = ctx.classes.get(MAT, cname)
+        owner, mf = ctx.classes.resolve_method(cls, "match")
+        if not isinstance(mf, FUNC_TYPES):
+            raise AnalysisError(f"anchor vanished: {cname}.match")
+        dparam = mf.args.args[1].arg
+        for state, outcome in STATES.items():
+            dv, st = _with_deferred(outcome)
+
+            def oracle(n, pos, kw):
+                if n == "inner.match":
+                    return [("val", NONE, "matches"), ("val", INNER_MISMATCH, "mismatch")]
+                return None
+
+            dom = DeferredDomain(ctx.classes, attrs={"self": ("self",), "self._matcher": ("wobj", "inner")}, oracle=oracle, ctors={"Mismatch"}, log_cap=20)
+            res = effects.run(ctx, dom, mf, cls, {dparam: dv}, state=st, depth=7)
+            table_p, intact, handled = set(), set(), set()
+            kind = table[state]
+            if not res:
+                table_p.add("no path explored")
+            for r in res:
+                log = r.state.get("ev.calls", ())
+                asked = [e for e in log if e[0] == "inner.match"]
+                if r.kind != "val":
+                    table_p.add(f"match raises {r.value!r}")
+                    continue
+                if kind == "inner":
+                    arg = V if state == "fired with a value" else F
+                    if len(asked) != 1 or asked[0][1] != (arg,):
+                        table_p.add(f"the inner matcher is asked {len(asked)} time(s) with {[e[1] for e in asked]}; expected once with the Deferred's {'value' if arg == V else 'Failure'}")
+                    elif r.value != (NONE if asked[0][3] == "matches" else INNER_MISMATCH):
+                        table_p.add(f"the inner matcher answers {asked[0][3]} but match returns {r.value!r}")
                 else:
-                    out.append(val(("bool",), r.state))
-            return out
-        return [val(TOP, st)]
-
-    def raised_value(self, stmt, value, st, fr):
-        return ("raised", norm(stmt.exc)[:40])
-
-
-class ExtractDomain(ThreeWayDomain):
-    """extract_result under each Deferred state; capture lists hold zero or one captured value."""
-
-    def __init__(self, env):
-        super().__init__(None, None, (), env)
-
-    def call(self, interp, call, st, fr):
-        d = dotted(call.func) or ""
-        if d.split(".")[-1] in ("addCallbacks", "addCallback", "addErrback", "addBoth") and d.split(".")[0] == "deferred":
-            sv, fv = ENVS[self.env][2]
-            names = [dotted(a.value) if isinstance(a, ast.Attribute) and a.attr == "append" else None for a in call.args]
-            m = d.split(".")[-1]
-            succ_name = names[0] if m in ("addCallbacks", "addCallback", "addBoth") and names else None
-            fail_name = names[1] if m == "addCallbacks" and len(names) > 1 else (names[0] if m in ("addErrback", "addBoth") and names else None)
-            if succ_name and sv == NONEMPTY:
-                st = st.set(fr.local(succ_name), ("list1", ("the-result",)))
-            if fail_name and fv == NONEMPTY:
-                st = st.set(fr.local(fail_name), ("list1", ("the-failure",)))
-            return [val(("deferred",), st)]
-        if d == "len" and len(call.args) == 1:
-            out = []
-            for r in interp.eval(call.args[0], st, fr):
-                if r.kind == "exc":
-                    out.append(r)
-                elif r.value == EMPTY:
-                    out.append(val(("const", 0), r.state))
-                elif isinstance(r.value, tuple) and r.value[:1] == ("list1",):
-                    out.append(val(("const", 1), r.state))
-                else:
-                    out.append(val(TOP, r.state))
-            return out
-        if isinstance(call.func, ast.Attribute) and call.func.attr == "raiseException":
-            out = []
-            for r in interp.eval(call.func.value, st, fr):
-                out.append(r if r.kind == "exc" else exc(("failure-raised", r.value), r.state))
-            return out
-        if d == "DeferredNotFired":
-            return [val(("not-fired",), st)]
-        return super().call(interp, call, st, fr)
-
-    def truth(self, value):
-        if isinstance(value, tuple) and value[:1] == ("list1",):
-            return "T"
-        return super().truth(value)
-
-    def subscript(self, base, idx, st, fr):
-        if isinstance(base, tuple) and base[:1] == ("list1",) and idx == ("const", 0):
-            return base[1]
-        return None
-
-    def raised_value(self, stmt, value, st, fr):
-        return value if isinstance(value, tuple) else ("raised", norm(stmt.exc)[:40])
+                    if asked:
+                        table_p.add("the inner matcher is consulted although the Deferred is not in the state it speaks about")
+                    is_mismatch = isinstance(r.value, tuple) and r.value[:2] == ("new", "Mismatch")
+                    if kind == "none" and r.value != NONE:
+                        table_p.add(f"match returns {r.value!r} instead of None (a match)")
+                    if kind == "mismatch" and not is_mismatch:
+                        table_p.add(f"match returns {r.value!r} instead of a Mismatch")
+                after = dom.result_of(r.state, dv)
+                if outcome == ("fail", F):
+                    inspected = cname in ("_Succeeded", "_Failed")
+                    if inspected and after[0] == "fail":
+                        handled.add("the failure inspected by the matcher is still held by the Deferred: it would be logged as unhandled when the Deferred is garbage-collected")
+                    if not inspected and after != outcome:
+                        intact.add(f"the matcher leaves the failed Deferred as {after!r}")
+                elif after != outcome:
+                    intact.add(f"afterwards the Deferred holds {after!r} instead of {outcome!r}")
+                elif state in UNFIRED:
+                    for s2 in _fire_later(ctx, dom, mf, cls, r.state, dv):
+                        if dom.result_of(s2, dv) != ("ok", V2):
+                            intact.add(f"when the Deferred fires later, later callbacks see {dom.result_of(s2, dv)!r} instead of its value")
+            ctx.check("R-MATCHER-TABLES", f"{cname}, Deferred {state}: " + {"none": "matches", "mismatch": "a Mismatch", "inner": "the inner matcher's answer about the result"}[kind], mf,
+                      not table_p, "; ".join(sorted(table_p)), examined=len(res), construct=f"{MAT}:{cname}.match::{state}")
+            ctx.check("R-PASSIVE-CALLBACKS", f"{cname}, Deferred {state}: the Deferred is left intact for later callbacks", mf, not intact, "; ".join(sorted(intact)), examined=len(res),
+                      construct=f"{MAT}:{cname}.match::intact {state}")
+            if outcome == ("fail", F) and cname in ("_Succeeded", "_Failed"):
+                ctx.check("R-HANDLED-SIBLINGS", f"{cname}: an inspected failure is marked handled", mf, not handled, "; ".join(sorted(handled)), examined=len(res),
+                          construct=f"{MAT}:{cname}.match::handled")
+    # the public constructors hand out these matchers
+    for fname, cname in (("has_no_result", "_NoResult"), ("succeeded", "_Succeeded"), ("failed", "_Failed")):
+        f = module_function(ctx, MAT, fname)
+        dom = effects.EffectDomain(ctx.classes, attrs={"_NO_RESULT": ("new", "_NoResult", (), ())}, ctors={"_NoResult", "_Succeeded", "_Failed"})
+        M = ("sym", "inner-matcher")
+        res = effects.run(ctx, dom, f, None, {a.arg: M for a in f.args.args}, state=State(), depth=2)
+        want = ("new", cname, (M,) if f.args.args else (), ())
+        ok = bool(res) and all(r.kind == "val" and r.value == want for r in res)
+        ctx.check("R-MATCHER-TABLES", f"{fname}() builds {cname}" + ("(matcher)" if f.args.args else ""), f, ok, f"{fname} returns {[r.value for r in res]!r}", examined=len(res),
+                  construct=f"{MAT}:{fname}::builds")
 
 
-def first_param_returned(func):
-    """Does func return its first parameter on every path?"""
-    if isinstance(func, ast.Lambda):
-        p = func.args.args[0].arg if func.args.args else None
-        return dotted(func.body) == p, norm(func.body)
-    from ..cfg import build_cfg, live_nodes
-    g = build_cfg(func)
-    lv = live_nodes(g)
-    p = func.args.args[0].arg if func.args.args else None
-    rets = [n for n in g.nodes if n.id in lv and n.kind == "return"]
-    implicit = [a for a, k in g.pred[g.exit_return] if a in lv and g.nodes[a].kind != "return"]
-    ok = bool(rets) and not implicit and all(dotted(r.ast.value) == p for r in rets)
-    rebinds = [n for n in walk_shallow(func, include_self=False) if isinstance(n, (ast.Assign, ast.AugAssign)) and any(dotted(t) == p for t in (n.targets if isinstance(n, ast.Assign) else [n.target]))]
-    return ok and not rebinds, "; ".join(norm(r.ast) for r in rets) or "falls off the end"
+def check_extract_result(ctx):
+    er = module_function(ctx, DEF, "extract_result")
+    param = er.args.args[0].arg
+    for state, outcome in STATES.items():
+        dv, st = _with_deferred(outcome)
+        dom = DeferredDomain(ctx.classes, attrs={}, log_cap=10)
+        res = effects.run(ctx, dom, er, None, {param: dv}, state=st, depth=4)
+        want = {"fired with a value": ("val", V), "failed": ("exc", F_EXC)}.get(state, ("exc", ("exc", "DeferredNotFired")))
+        got = sorted({(r.kind, r.value) for r in res}, key=repr)
+        problems = set()
+        if got != [want]:
+            problems.add(f"extract_result {['returns ' + repr(v) if k == 'val' else 'raises ' + repr(v) for k, v in got]}; expected: {'returns the value' if want[0] == 'val' else 'raises ' + repr(want[1])}")
+        for r in res:
+            if state in UNFIRED and dom.result_of(r.state, dv) != outcome:
+                problems.add("extract_result fires a Deferred that had not fired")
+        ctx.check("R-SYNC-RUNNER", f"extract_result, Deferred {state}", er, not problems, "; ".join(sorted(problems)), examined=len(res), construct=f"{DEF}:extract_result::{state}")
+
+
+def check_sync_runner(ctx):
+    cls = ctx.classes.get(TWRUNTEST, "SynchronousDeferredRunTest")
+    owner, f = ctx.classes.resolve_method(cls, "_run_user")
+    if not isinstance(f, FUNC_TYPES):
+        raise AnalysisError("anchor vanished: SynchronousDeferredRunTest._run_user")
+    SENTINEL = ("sym", "exception_caught")
+    for kind, want in (("value", ("val", USER_VALUE, 0)), ("fired-ok", ("val", USER_VALUE, 0)), ("raise", ("val", SENTINEL, 1)), ("fired-fail", ("val", SENTINEL, 1)),
+                       ("pending", ("exc", ("exc", "DeferredNotFired"), 0))):
+        dom = DeferredDomain(ctx.classes, attrs={"self": ("self",)}, results={"self._got_user_failure": [SENTINEL]}, track=lambda d: d == "self._got_user_failure", log_cap=20)
+        res = effects.run(ctx, dom, f, cls, {"function": userfn(kind), "args": ("tuple", ("sym", "arg-1")), "kwargs": ("kwdict", (("k", ("sym", "kw-1")),))}, state=State(), depth=6)
+        problems = set()
+        if not res:
+            problems.add("no path explored")
+        for r in res:
+            log = r.state.get("ev.calls", ())
+            rec = [e for e in log if e[0] == "self._got_user_failure"]
+            calls_ = [e for e in log if e[0] == "user-function"]
+            if len(calls_) != 1 or calls_[0][1] != (("sym", "arg-1"),) or dict(calls_[0][2]) != {"k": ("sym", "kw-1")}:
+                problems.add("the user function is not called once with the given arguments")
+            if (r.kind, r.value) != want[:2]:
+                problems.add(f"_run_user {'returns' if r.kind == 'val' else 'raises'} {r.value!r}; expected {'the value' if want[1] == USER_VALUE else 'the sentinel of _got_user_failure' if want[0] == 'val' else 'DeferredNotFired'}")
+            if len(rec) != want[2] or any(not (e[1] and is_failure(e[1][0]) and e[1][0][1] == USER_EXC) for e in rec):
+                problems.add(f"_got_user_failure receives {[e[1] for e in rec]!r}; expected {'the Failure of the function, once' if want[2] else 'nothing'}")
+        label = {"value": "returns a value", "fired-ok": "returns a Deferred that has fired", "raise": "raises", "fired-fail": "returns a Deferred that has failed",
+                 "pending": "returns a Deferred that has not fired"}[kind]
+        ctx.check("R-SYNC-RUNNER", f"SynchronousDeferredRunTest._run_user: the test {label}", f, not problems, "; ".join(sorted(problems)), examined=len(res),
+                  construct=f"{TWRUNTEST}:SynchronousDeferredRunTest._run_user::{kind}")
+    base = ctx.classes.get(TWRUNTEST, "_DeferredRunTest")
+    owner, guf = ctx.classes.resolve_method(base, "_got_user_failure")
+    if not isinstance(guf, FUNC_TYPES):
+        raise AnalysisError("anchor vanished: _DeferredRunTest._got_user_failure")
+    FAIL = ("wobj", "fail")
+    ANSWER = ("sym", "recorder-answer")
+    dom = effects.EffectDomain(ctx.classes, attrs={"self": ("self",)}, results={"self._got_user_exception": [ANSWER]}, track=lambda d: d == "self._got_user_exception")
+    params = [a.arg for a in guf.args.args[1:]]
+    res = effects.run(ctx, dom, guf, base, {params[0]: FAIL, params[1]: ("const", "a-label")} if len(params) > 1 else {params[0]: FAIL}, state=State(), depth=2)
+    problems = set()
+    for r in res:
+        rec = [e for e in r.state.get("ev.calls", ()) if e[0] == "self._got_user_exception"]
+        want = ("tuple", ("bound", "fail", "type"), ("bound", "fail", "value"), ("ret", "fail", "getTracebackObject"))
+        if len(rec) != 1 or rec[0][1][:1] != (want,):
+            problems.add(f"the recorder receives {[e[1] for e in rec]!r}; expected once (failure.type, failure.value, failure.getTracebackObject())")
+        elif len(params) > 1 and ("const", "a-label") not in list(rec[0][1][1:]) + [v for _, v in rec[0][2]]:
+            problems.add("the traceback label is not passed on to the recorder")
+        if r.kind != "val" or r.value != ANSWER:
+            problems.add("the recorder's answer (the sentinel) is not returned")
+    ctx.check("R-SYNC-RUNNER", "_got_user_failure hands the Failure to the exception recorder as an exc_info triple and returns its result", guf, bool(res) and not problems,
+              "; ".join(sorted(problems)) or "no path explored", examined=len(res), construct=f"{TWRUNTEST}:_DeferredRunTest._got_user_failure::records")
 
 
 def run(ctx):
-    ctx.rule("R-PASSIVE-CALLBACKS", "callbacks attached to the matchee hand its result through unchanged")
-    ctx.rule("R-NOBODY-FIRES", "nothing in the matchers fires, fails or cancels the matchee")
-    ctx.rule("R-THREEWAY", "on_deferred_result invokes exactly one of its three callbacks, chosen by the capture lists")
-    ctx.rule("R-MATCHER-TABLES", "per-state verdict tables of has_no_result / succeeded / failed")
-    ctx.rule("R-HANDLED-SIBLINGS", "both failure arms mark the inspected failure handled")
-    ctx.rule("R-SYNC-RUNNER", "SynchronousDeferredRunTest._run_user and extract_result have the documented shape")
-    classes = ctx.classes
-    dm = ctx.repo.module(DEF)
-    mm = ctx.repo.module(MAT)
-
-    # ------------------------------------------------------------------ passive callbacks
-    odr = module_function(ctx, DEF, "on_deferred_result")
-    ctx.analysed(odr)
-    local_defs = {f.name: f for f in odr.body if isinstance(f, FUNC_TYPES)}
-    attached = []
-    exempt = []
-    for modname, m in ((DEF, dm), (MAT, mm)):
-        for c in ast.walk(m.tree):
-            if isinstance(c, ast.Call) and isinstance(c.func, ast.Attribute) and c.func.attr in ("addCallbacks", "addCallback", "addErrback", "addBoth"):
-                encl = getattr(c, "_func", None)
-                for a in c.args:
-                    attached.append((modname, encl, c, a))
-    n_passive = 0
-    for modname, encl, c, a in attached:
-        name = getattr(encl, "name", "<module>")
-        target = None
-        if isinstance(a, ast.Call) and dotted(a.func) in ("partial", "functools.partial") and a.args:
-            target = a.args[0]
-        else:
-            target = a
-        f = None
-        if isinstance(target, ast.Lambda):
-            f = target
-        elif isinstance(target, ast.Name) and encl is not None:
-            for s in ast.walk(encl):
-                if isinstance(s, FUNC_TYPES) and s.name == target.id:
-                    f = s
-        if name == "extract_result":
-            ctx.note("R-PASSIVE-CALLBACKS frozen exception: extract_result is documented as consuming the result")
-            continue
-        if isinstance(target, ast.Lambda) and isinstance(target.body, ast.Constant) and target.body.value is None and c.func.attr == "addErrback" and name == "_got_failure":
-            ctx.note(f"R-PASSIVE-CALLBACKS frozen exception: swallowing errback in {name} marks the inspected failure handled (see R-HANDLED-SIBLINGS)")
-            continue
-        n_passive += 1
-        if f is None:
-            ctx.check("R-PASSIVE-CALLBACKS", f"{name}: callback {norm(a)[:40]} resolves", c, False, f"cannot resolve the callback {norm(a)} attached in {name}",
-                      construct=f"{modname}:{name}::callback {norm(a)[:40]}")
-            continue
-        ok, what = first_param_returned(f)
-        ctx.check("R-PASSIVE-CALLBACKS", f"{name}: {norm(a)[:50]} returns its first parameter", f, ok,
-                  f"the callback attached to the matchee in {name} returns `{what}` instead of the value it was given: callbacks added after matching would see a different result",
-                  construct=f"{modname}:{name}::callback {norm(a)[:40]}")
-    ctx.floor("R-PASSIVE-CALLBACKS", 2, "attached callbacks")
-
-    # ------------------------------------------------------------------ nobody fires
-    total = 0
+    ctx.rule("R-PASSIVE-CALLBACKS", "matching leaves the Deferred's state and result intact for later callbacks")
+    ctx.rule("R-NOBODY-FIRES", "nothing in the matcher modules fires, fails or cancels a Deferred")
+    ctx.rule("R-THREEWAY", "on_deferred_result invokes exactly the callback for the Deferred's state")
+    ctx.rule("R-MATCHER-TABLES", "the three matchers answer per state as documented")
+    ctx.rule("R-HANDLED-SIBLINGS", "an inspected failure is marked handled")
+    ctx.rule("R-SYNC-RUNNER", "extract_result / SynchronousDeferredRunTest turn a fired Deferred into a plain result")
+    dm, mm = ctx.repo.module(DEF), ctx.repo.module(MAT)
     for modname, m in ((DEF, dm), (MAT, mm)):
         hits = firing_calls(m.tree, {"deferred", "d", "self.deferred", "self._deferred"})
-        total += len(hits)
         ctx.check("R-NOBODY-FIRES", f"{modname.split('.')[-1]}: no callback()/errback()/cancel() on a Deferred", m.tree, not hits,
                   f"{[norm(h) for h in hits]}: matching would fire / fail / cancel the Deferred under inspection", construct=f"{modname}::fires")
     tree = ast.parse(_FIRE_EXAMPLE)
     _annotate(tree, None)
     ctx.check("R-NOBODY-FIRES", "embedded positive example (deferred.callback(None)) is recognised", None, len(firing_calls(tree, {"deferred"})) == 1,
               "the rule no longer recognises its positive example", construct="R-NOBODY-FIRES::self-check")
-
-    # ------------------------------------------------------------------ three way
-    cap = [c for c in walk_shallow(odr, include_self=False) if isinstance(c, ast.Call) and dotted(c.func) == "deferred.addCallbacks"]
-
-    def capture_list(a):
-        if isinstance(a, ast.Call) and dotted(a.func) in ("partial", "functools.partial"):
-            v = kw_value(a, "values") or (a.args[1] if len(a.args) > 1 else None)
-            return dotted(v)
-        return None
-
-    sv = fv = None
-    if len(cap) == 1 and len(cap[0].args) == 2:
-        sv, fv = capture_list(cap[0].args[0]), capture_list(cap[0].args[1])
-        if not sv or not fv:
-            raise AnalysisError("cannot identify the success / failure capture lists of on_deferred_result")
-    elif cap:
-        raise AnalysisError("on_deferred_result attaches callbacks in a way the model does not know")
-    cbs = [a.arg for a in odr.args.args[1:]]
-    for env, (called, result, lists, want_cb) in ENVS.items():
-        if want_cb is None and not cap:
-            continue  # nothing can observe the impossible state without the capture lists
-        dom = ThreeWayDomain(sv, fv, cbs, env)
-        it = Interp(dom, max_depth=2)
-        res = it.analyze(odr, {}, State([("ev.calls", ())]), receiver=None, name="on_deferred_result")
-        ctx.stats["states"] += it.steps
-        outs = {(r.kind, r.state.get("ev.calls", ()), r.value if r.kind == "val" else None) for r in res}
-        if want_cb is None:
-            ok = bool(outs) and all(o[0] == "exc" and o[1] == () for o in outs)
-            expect = "raise"
-        else:
-            ok = outs == {("val", (want_cb,), ("verdict", want_cb))}
-            expect = f"{want_cb} (its value returned)"
-        ctx.check("R-THREEWAY", f"on_deferred_result, Deferred {env} -> {expect}", odr, ok,
-                  f"with a Deferred that has {env} on_deferred_result does {sorted((o[0], o[1]) for o in outs)} (expected {expect}): "
-                  "the classification does not follow whether a result is available now",
-                  construct=f"{DEF}:on_deferred_result::{env}")
-    for cb in cbs:
-        calls = [c for c in walk_shallow(odr, include_self=False) if isinstance(c, ast.Call) and dotted(c.func) == cb]
-        ok = bool(calls) and all(c.args and dotted(c.args[0]) == "deferred" and len(c.args) == (1 if cb == "on_no_result" else 2) for c in calls)
-        ctx.check("R-THREEWAY", f"{cb} receives the Deferred{' and the captured result' if cb != 'on_no_result' else ''}", odr, ok,
-                  f"{cb} is called with the wrong arguments", construct=f"{DEF}:on_deferred_result::{cb}-args")
-    capf = local_defs.get("capture")
-    ok = not cap or capf is not None and any(isinstance(c, ast.Call) and dotted(c.func) == f"{capf.args.args[1].arg}.append" and dotted(c.args[0]) == capf.args.args[0].arg for c in ast.walk(capf))
-    ctx.check("R-THREEWAY", "the capture callback records the value it saw", capf if capf is not None else odr, ok, "capture no longer appends the value to its list", construct=f"{DEF}:on_deferred_result::capture-appends")
-
-    # ------------------------------------------------------------------ matcher tables
-    table = {
-        "_NoResult": {"on_success": {"Mismatch"}, "on_failure": {"Mismatch"}, "on_no_result": {"None"}},
-        "_Succeeded": {"on_success": {"Delegate"}, "on_failure": {"Mismatch"}, "on_no_result": {"Mismatch"}},
-        "_Failed": {"on_success": {"Mismatch"}, "on_failure": {"Delegate"}, "on_no_result": {"Mismatch"}},
-    }
-    for cname, spec in table.items():
-        c = classes.get(MAT, cname)
-        mf = c.own_method("match")
-        if mf is None:
-            raise AnalysisError(f"anchor vanished: {cname}.match")
-        ctx.analysed(mf)
-        calls = [x for x in walk_shallow(mf, include_self=False) if isinstance(x, ast.Call) and dotted(x.func) == "on_deferred_result"]
-        rets = [r for r in walk_shallow(mf, include_self=False) if isinstance(r, ast.Return)]
-        ok = len(calls) == 1 and len(rets) == 1 and rets[0].value is calls[0] and calls[0].args and dotted(calls[0].args[0]) == mf.args.args[1].arg
-        ctx.check("R-MATCHER-TABLES", f"{cname}.match returns on_deferred_result(<matchee>, ...)", mf, ok, f"{cname}.match no longer delegates to on_deferred_result on the matchee", construct=f"{MAT}:{cname}.match::delegates")
-        if not calls:
-            continue
-        for slot, want_k in spec.items():
-            v = kw_value(calls[0], slot)
-            f = None
-            if isinstance(v, ast.Lambda):
-                f = v
-            elif v is not None and dotted(v) and dotted(v).startswith("self."):
-                f = c.own_method(dotted(v).split(".")[1])
-            kinds = function_return_kinds(ctx, c.module, f) if f is not None else {"unresolved"}
-            ok = kinds == want_k
-            detail = ""
-            if ok and want_k == {"Delegate"} and f is not None:
-                # delegate on the right object: the value (success) / the Failure (failure)
-                body = f.body if isinstance(f, ast.Lambda) else None
-                call = body if isinstance(body, ast.Call) else next((r.value for r in ast.walk(f) if isinstance(r, ast.Return) and isinstance(r.value, ast.Call)), None)
-                params = [a.arg for a in f.args.args if a.arg != "self"]
-                ok = call is not None and norm(call.func) == "self._matcher.match" and len(call.args) == 1 and dotted(call.args[0]) == params[-1]
-                detail = " (must be self._matcher.match(<the captured value>))"
-            ctx.check("R-MATCHER-TABLES", f"{cname}: {slot} -> {sorted(want_k)}", v if v is not None else mf, ok,
-                      f"{cname} answers {slot} with {sorted(kinds)}; documented: {sorted(want_k)}{detail}", construct=f"{MAT}:{cname}.match::{slot}")
-    ctx.floor("R-MATCHER-TABLES", 12)
-
-    # ------------------------------------------------------------------ handled siblings
-    for cname in ("_Succeeded", "_Failed"):
-        c = classes.get(MAT, cname)
-        f = c.own_method("_got_failure")
-        if f is None:
-            raise AnalysisError(f"anchor vanished: {cname}._got_failure")
-        from ..cfg import build_cfg, live_nodes
-        g = build_cfg(f)
-        lv = live_nodes(g)
-        dparam = [a.arg for a in f.args.args if a.arg != "self"][0]
-        marks = [n.id for n in g.nodes if n.id in lv and any(isinstance(x, ast.Call) and dotted(x.func) == f"{dparam}.addErrback" and x.args and isinstance(x.args[0], ast.Lambda)
-                                                               and isinstance(x.args[0].body, ast.Constant) and x.args[0].body.value is None for x in (ast.walk(n.ast) if n.ast is not None and n.kind == "stmt" else []))]
-        esc = g.escape_path([g.entry], set(marks), targets=[g.exit_return]) if marks else [0]
-        ctx.check("R-HANDLED-SIBLINGS", f"{cname}._got_failure marks the failure handled on every path", f, bool(marks) and esc is None,
-                  f"{cname}._got_failure can return without adding a swallowing errback: the inspected failure would be logged as unhandled at garbage collection",
-                  construct=f"{MAT}:{cname}._got_failure::handled")
-
-    # ------------------------------------------------------------------ sync runner
-    ru = own_method(ctx, TWRUNTEST, "SynchronousDeferredRunTest", "_run_user")
-    stmts = [norm(s) for s in ru.body if not (isinstance(s, ast.Expr) and isinstance(s.value, ast.Constant))]
-    fn = ru.args.args[1].arg
-    va = ru.args.vararg.arg if ru.args.vararg else None
-    kw = ru.args.kwarg.arg if ru.args.kwarg else None
-    ok = (len(stmts) >= 3 and stmts[0].startswith("d = defer.maybeDeferred(%s, *%s" % (fn, va)) and (kw is None or f"**{kw}" in stmts[0])
-          and stmts[1] == "d.addErrback(self._got_user_failure)" and "extract_result(d)" in " ".join(stmts[2:]))
-    ctx.check("R-SYNC-RUNNER", "_run_user: maybeDeferred(function, *args[, **kwargs]) -> addErrback(_got_user_failure) -> extract_result", ru, ok,
-              f"SynchronousDeferredRunTest._run_user is {stmts}", construct=f"{TWRUNTEST}:SynchronousDeferredRunTest._run_user::shape")
-    er = module_function(ctx, DEF, "extract_result")
-    ctx.analysed(er)
-    want_er = {"not fired": ("exc", ("not-fired",)), "fired, chain paused or waiting on a nested Deferred": ("exc", ("not-fired",)),
-               "result available": ("val", ("the-result",)), "failure available": ("exc", ("failure-raised", ("the-failure",)))}
-    for env, want_o in want_er.items():
-        dom = ExtractDomain(env)
-        it = Interp(dom, max_depth=2)
-        res = it.analyze(er, {}, State(), receiver=None, name="extract_result")
-        ctx.stats["states"] += it.steps
-        outs = {(r.kind, r.value) for r in res}
-        human = {"not-fired": "raise DeferredNotFired", "the-result": "return the result", "failure-raised": "raise the failure"}
-        expect = human[want_o[1][0]]
-        ctx.check("R-SYNC-RUNNER", f"extract_result, Deferred {env} -> {expect}", er, outs == {want_o},
-                  f"with a Deferred that has {env}, extract_result does {sorted(map(repr, outs))} (expected: {expect}): a test returning such a Deferred is "
-                  "reported from a value that is not its result",
-                  construct=f"{DEF}:extract_result::{env}")
-    guf = own_method(ctx, TWRUNTEST, "_DeferredRunTest", "_got_user_failure")
-    ok = any(isinstance(c, ast.Call) and dotted(c.func) == "self._got_user_exception" and "failure.type" in norm(c) and "failure.value" in norm(c) and "getTracebackObject()" in norm(c)
-             and dotted(kw_value(c, "tb_label")) == "tb_label" for c in ast.walk(guf)) and any(isinstance(r, ast.Return) for r in ast.walk(guf))
-    ctx.check("R-SYNC-RUNNER", "_got_user_failure hands the Failure to the exception recorder as an exc_info triple and returns its result", guf, ok,
-              "_got_user_failure changed", construct=f"{TWRUNTEST}:_DeferredRunTest._got_user_failure::shape")
-    ctx.assume("Twisted runs callbacks added to an already-fired Deferred synchronously (the matchers are documented for synchronous Deferreds)")
+    check_on_deferred_result(ctx)
+    check_matchers(ctx)
+    check_extract_result(ctx)
+    check_sync_runner(ctx)
+    ctx.floor("R-THREEWAY", 3)
+    ctx.floor("R-MATCHER-TABLES", 10)
+    ctx.floor("R-PASSIVE-CALLBACKS", 10)
+    ctx.floor("R-SYNC-RUNNER", 8)
+    ctx.assume("Deferred chains are interpreted with Twisted's documented semantics; a Deferred whose chain is paused on a nested Deferred behaves as one that has not fired")
